@@ -449,7 +449,8 @@ def jobs(tier):
                                                      "subwindow_size_thresh": 1}},
                        expect=("lemma", "loose-alarmed"), opts={"validate": 1}))
     for which in ("drift", "warning"):
-        out.append(Job(f"lfr-{which}", "checks.c17:body_lfr", {"N": 3 if q else 4, "which": which}, expect=("lemma",)))
+        out.append(Job(f"lfr-{which}", "checks.c17:body_lfr", {"N": 3 if q else 4, "which": which}, expect=("lemma",),
+                       opts={} if q else {"wall_budget_s": 1800}))  # N=4 takes about 12 minutes
     nb = 4 if q else 6
     out.append(Job("kdqbatch", "checks.c17:body_kdq", {"stream": False, "N": nb}, expect=("lemma", "loose-alarmed")))
     out.append(Job("kdqstream", "checks.c17:body_kdq", {"stream": True, "N": 2 * nb + 2}, expect=("lemma",)))
